@@ -229,14 +229,14 @@ def PAYLOAD_TRANSFER_SIZE : Nat := 1024 * 64
 /-- `!m` on a `w`-bit unsigned integer. -/
 def notW (w m : Nat) : Nat := 2 ^ w - 1 - m
 
-/-- `align!(x, uW)` = `(x + (payload_alignment as uW - 1)) & !(payload_alignment as uW - 1)`
-in `w`-bit arithmetic (`x < 2^w`). -/
-def alignW (p : Profile) (w align x : Nat) : R Nat := do
-  let a := align % 2 ^ w                     -- `payload_alignment as uW`
-  let m ← subW p w a 1
-  let s ← addW p w x m
-  let m' ← subW p w a 1
-  pure (s &&& notW w m')
+/-- `u32::try_from(payload_alignment)`: the size registers are 32 bits wide. -/
+def alignmentU32 (align : Nat) : R Nat :=
+  if align < 2 ^ 32 then .ok align else .err .invalidDevice
+
+/-- the closure `align`: `size.checked_add(alignment_mask).map(|s| s & !alignment_mask)`,
+`None` ⇒ `InvalidDevice`. -/
+def alignU32 (mask x : Nat) : R Nat :=
+  if x + mask < 2 ^ 32 then .ok ((x + mask) &&& notW 32 mask) else .err .invalidDevice
 
 structure Sizes where
   transferSize : Nat
@@ -248,17 +248,22 @@ structure Sizes where
   deriving Repr, DecidableEq
 
 /-- The straight-line `let` chain between the device reads and the device writes, as a
-function of the values read (`align : usize`, leader/trailer `u32`, payload `u64`). -/
+function of the values read (`align : u32` after the checked conversion, leader/trailer `u32`,
+payload `u64`).  (`alignment_mask` is computed right after the conversion in the source; it
+cannot fail there because the alignment is `1 << exponent >= 1`.) -/
 def computeSizes (p : Profile) (align reqLeader reqPayload reqTrailer : Nat) : R Sizes := do
-  let ts ← alignW p 32 align PAYLOAD_TRANSFER_SIZE
-  -- `required_payload_size / payload_transfer_size as u64` then `as u32`
-  -- division by zero panics in every profile
-  if ts = 0 then .panic else do
-    let count := (reqPayload / ts) % 2 ^ 32
-    let f1' ← alignW p 64 align (reqPayload % ts)
-    let f1 := f1' % 2 ^ 32
-    let ml ← if reqLeader = 0 then pure ts else alignW p 32 align reqLeader
-    let mt ← if reqTrailer = 0 then pure ts else alignW p 32 align reqTrailer
+  let mask ← subW p 32 align 1                          -- `payload_alignment - 1`
+  let ts ← alignU32 mask PAYLOAD_TRANSFER_SIZE
+  -- `required_payload_size / payload_transfer_size as u64`: division by zero panics in every profile
+  if ts = 0 then .panic else
+  -- `u32::try_from(..)` of the transfer count
+  if ¬ reqPayload / ts < 2 ^ 32 then .err .invalidDevice else do
+    let count := reqPayload / ts
+    -- `((required % size) + mask as u64) & !(mask as u64)) as u32`
+    let s ← addW p 64 (reqPayload % ts) mask
+    let f1 := (s &&& notW 64 mask) % 2 ^ 32
+    let ml ← if reqLeader = 0 then pure ts else alignU32 mask reqLeader
+    let mt ← if reqTrailer = 0 then pure ts else alignU32 mask reqTrailer
     pure ⟨ts, count, f1, 0, ml, mt⟩
 
 /-- `Sirm::payload_size_alignment`: `1_usize.checked_shl(si_info >> 24)`. -/
@@ -286,6 +291,7 @@ def readInputs (s : Nat) : M Inputs := do
   if ctrl % 2 = 1 then writeReg32 s SI_CONTROL 0 else pure ()
   let info ← readReg s SI_INFO 4
   let align ← M.lift (payloadSizeAlignment info)
+  let align ← M.lift (alignmentU32 align)
   let reqLeader ← readReg s REQUIRED_LEADER_SIZE 4
   let reqPayload ← readReg s REQUIRED_PAYLOAD_SIZE 8
   let reqTrailer ← readReg s REQUIRED_TRAILER_SIZE 4
